@@ -379,28 +379,39 @@ fn resp_specs() -> Vec<RespSpec> {
 struct ReqSpec {
     post: bool,
     url: &'static str,
-    /// insertion order
-    headers: Vec<(&'static str, &'static str)>,
+    /// insertion order; (name, values in the order the app gives them)
+    headers: Vec<(String, Vec<String>)>,
     body: Vec<u8>,
 }
 
 impl ReqSpec {
-    fn contents(&self) -> (bool, &'static str, Vec<(&'static str, &'static str)>, Vec<u8>) {
+    fn contents(&self) -> (bool, &'static str, Vec<(String, Vec<String>)>, Vec<u8>) {
         let mut h = self.headers.clone();
         h.sort();
         (self.post, self.url, h, self.body.clone())
+    }
+    fn lines(&self) -> usize {
+        self.headers.iter().map(|(_, v)| v.len()).sum()
     }
     /// The protocol request the Command API emits for this description.
     fn build(&self) -> Option<HttpRequest> {
         use crate::app::{Effect, Event};
         use crux_http::command::Http;
+        use crux_http::http::headers::HeaderValue;
+        use std::str::FromStr;
         let mut b = if self.post {
             Http::<Effect, Event>::post(self.url)
         } else {
             Http::<Effect, Event>::get(self.url)
         };
-        for (n, v) in &self.headers {
-            b = b.header(*n, *v);
+        for (n, vs) in &self.headers {
+            if vs.len() == 1 {
+                b = b.header(n.as_str(), vs[0].as_str());
+            } else {
+                let hv: Vec<HeaderValue> =
+                    vs.iter().map(|v| HeaderValue::from_str(v).expect("ascii")).collect();
+                b = b.header(n.as_str(), &hv[..]);
+            }
         }
         if !self.body.is_empty() {
             b = b.body_bytes(&self.body).header("content-type", "application/x-test");
@@ -412,13 +423,56 @@ impl ReqSpec {
             _ => None,
         }
     }
+    /// The emitted lines of every name the app gave, in emission order, must be the app's values
+    /// in the app's order.
+    fn value_order_kept(&self, emitted: &HttpRequest) -> bool {
+        self.headers.iter().all(|(n, vs)| {
+            let got: Vec<&str> = emitted
+                .headers
+                .iter()
+                .filter(|h| &h.name == n)
+                .map(|h| h.value.as_str())
+                .collect();
+            got == vs.iter().map(|v| v.as_str()).collect::<Vec<_>>()
+        })
+    }
+}
+
+/// 44 header lines: 12 names with three values each, given in an order that is not sorted,
+/// and 8 single-valued names. `order` permutes the order in which the NAMES are inserted;
+/// `swap` exchanges two values of one name (different contents).
+fn big_headers(order: usize, swap: bool) -> Vec<(String, Vec<String>)> {
+    let mut v: Vec<(String, Vec<String>)> = vec![];
+    for i in 0..12 {
+        let mut vals = vec![format!("m{i}"), "a".to_string(), format!("z{i}")];
+        if swap && i == 7 {
+            vals.swap(0, 2);
+        }
+        v.push((format!("m-{i:02}"), vals));
+    }
+    for i in 0..8 {
+        v.push((format!("s-{i}"), vec![format!("{i}")]));
+    }
+    match order {
+        0 => {}
+        1 => v.reverse(),
+        _ => {
+            // interleave the two halves
+            let half = v.split_off(v.len() / 2);
+            v = v.into_iter().zip(half).flat_map(|(a, b)| [b, a]).collect();
+        }
+    }
+    v
 }
 
 fn req_specs() -> Vec<ReqSpec> {
-    let six = vec![("x-a", "1"), ("x-b", "2"), ("x-c", "3"), ("x-d", "4"), ("x-e", "5"), ("x-f", "6")];
+    let one = |pairs: &[(&str, &str)]| -> Vec<(String, Vec<String>)> {
+        pairs.iter().map(|(n, v)| (n.to_string(), vec![v.to_string()])).collect()
+    };
+    let six = one(&[("x-a", "1"), ("x-b", "2"), ("x-c", "3"), ("x-d", "4"), ("x-e", "5"), ("x-f", "6")]);
     let mut six_rev = six.clone();
     six_rev.reverse();
-    let s = |post, url, headers: Vec<(&'static str, &'static str)>, body: Vec<u8>| ReqSpec {
+    let s = |post, url, headers: Vec<(String, Vec<String>)>, body: Vec<u8>| ReqSpec {
         post,
         url,
         headers,
@@ -428,16 +482,28 @@ fn req_specs() -> Vec<ReqSpec> {
         s(false, "https://example.com/", vec![], vec![]),
         s(false, "https://example.com/x", vec![], vec![]),
         s(true, "https://example.com/", vec![], vec![]),
-        s(false, "https://example.com/", vec![("x-a", "1")], vec![]),
-        s(false, "https://example.com/", vec![("x-a", "2")], vec![]),
-        s(false, "https://example.com/", vec![("x-a", "1"), ("x-b", "2")], vec![]),
-        s(false, "https://example.com/", vec![("x-b", "2"), ("x-a", "1")], vec![]),
-        s(false, "https://example.com/", vec![("x-a", "1"), ("x-b", "3")], vec![]),
+        s(false, "https://example.com/", one(&[("x-a", "1")]), vec![]),
+        s(false, "https://example.com/", one(&[("x-a", "2")]), vec![]),
+        s(false, "https://example.com/", one(&[("x-a", "1"), ("x-b", "2")]), vec![]),
+        s(false, "https://example.com/", one(&[("x-b", "2"), ("x-a", "1")]), vec![]),
+        s(false, "https://example.com/", one(&[("x-a", "1"), ("x-b", "3")]), vec![]),
         s(false, "https://example.com/", six.clone(), vec![]),
         s(false, "https://example.com/", six_rev, vec![]),
         s(true, "https://example.com/", six.clone(), vec![1, 2]),
         s(true, "https://example.com/", six, vec![1, 3]),
-        s(true, "https://example.com/", vec![("x-a", "1")], vec![1, 2]),
+        s(true, "https://example.com/", one(&[("x-a", "1")]), vec![1, 2]),
+        // more than 32 header lines, several names multi-valued
+        s(false, "https://example.com/", big_headers(0, false), vec![]),
+        s(false, "https://example.com/", big_headers(1, false), vec![]),
+        s(false, "https://example.com/", big_headers(2, false), vec![]),
+        s(false, "https://example.com/", big_headers(0, true), vec![]),
+        s(true, "https://example.com/", big_headers(2, false), vec![4]),
+        s(
+            false,
+            "https://example.com/",
+            vec![("x-a".to_string(), vec!["2".to_string(), "1".to_string(), "3".to_string()])],
+            vec![],
+        ),
     ]
 }
 
@@ -568,6 +634,14 @@ fn equality(rep: &Reporter) -> EqStats {
                     );
                     break;
                 };
+                if !x.value_order_kept(&a) || !y.value_order_kept(&b) {
+                    report(
+                        "http-request/multi-value-order",
+                        format!("the values of a multi-valued header do not reach the wire in the order the app gave them ({} header lines): described {:?}, emitted {:?} (evaluation {n} of {N})", x.lines(), x.headers, a.headers),
+                        json!({"kind": "HttpRequest", "left": i, "right": j}),
+                    );
+                    break;
+                }
                 let got = a == b;
                 if got != want {
                     let mut sa = a.clone();
@@ -764,7 +838,7 @@ pub fn run(tier: Tier, args: &[String]) -> i32 {
         "traces_validated_against_impl": replays + compared + deep_replays,
         "evaluations": replays + compared + deep_replays + eq.evaluations,
         "distinct_nontrivial": with_http,
-        "rule": "a history that contains an HTTP request with several headers (menu events Http: 6 headers, Legacy: 2 headers + content-type), the place where a seeded hash order can reach the wire",
+        "rule": "a history that contains an HTTP request with several headers (menu events Http: 6 headers, Legacy: 43 header lines, 12 names with three values each), the place where a seeded hash order can reach the wire",
         "exhaustive": complete && procs_done == k,
         "exhaustive_note": "refers to layer 1 (depth_bound, R in-process replays and K processes); layer 2 is reported separately",
         "depth_bound": depth,
